@@ -59,6 +59,32 @@ Theorem c02_nothing_after_decision :
 Proof. exact generic_decided_run_frozen. Qed.
 Print Assumptions c02_nothing_after_decision.
 
+(* the two reads of a poll (LocalBackend._all_trial_results: status first, std.out second; the worker
+   may write and exit in between).  (1) A poll that shows the trial as completed carries every report
+   of its run, whatever the worker did between the reads; (2) in the other order this is false;
+   (3) status-first is the same as: the writes happen before the poll, the exit after it — which
+   is how such polls enter the event lists (poll2), so c02_prefix_once_ordered ("the whole list
+   when the tuner saw the run complete") covers them. *)
+Theorem c02_final_status_carries_all_reports :
+  forall mid t s lg t1, worker_ok t -> read_trial mid t = (s, lg, t1) -> s = Completed ->
+    t1 = t /\ lg = log t /\ todo t = [] /\ skipn (base t) lg = cur t.
+Proof. exact read_final_status_complete. Qed.
+Print Assumptions c02_final_status_carries_all_reports.
+
+Theorem c02_text_first_refuted :
+  exists t mid s lg t1, worker_ok t /\ read_trial_text_first mid t = (s, lg, t1) /\ s = Completed /\
+                        skipn (base t) lg <> cur t.
+Proof. exact text_first_loses_tail. Qed.
+Print Assumptions c02_text_first_refuted.
+
+Theorem c02_status_first_decomposition :
+  forall t i k, proc t = Running -> (length (todo t) <= k)%nat ->
+    read_trial [Finish i] t =
+      (status_of (t_emit Generic k t), log (t_emit Generic k t), t_finish Generic (t_emit Generic k t)) /\
+    forall ids decs, Forall good_ev (poll2 ids [MFinish i k] decs).
+Proof. intros t i k Hp Hk. split; [exact (read_trial_finish_decomp t i k Hp Hk)|intros; apply poll2_good]. Qed.
+Print Assumptions c02_status_first_decomposition.
+
 (* ------------------------------ simulator backend --------------------------------------------- *)
 (* Hypothesis [run_cov]: only tuner-level events, and every poll covers all running trials (what
    Tuner.run does: it polls running_trials_ids; SimulatorBackend drops the results of trials that are
